@@ -32,6 +32,11 @@ def cases(tier, seed):
                             for r in range(reps):
                                 yield dict(kind=algo, mattype=mt, n=n, spectrum=spec, k=k, vreal=vreal,
                                            seed=int(rng.integers(1 << 31)))
+        if algo == 'arnoldi':
+            for n in range(1, 6):
+                for vreal in (False, True):
+                    for r in range(reps):
+                        yield dict(kind=algo, mattype='special', mapform='jordan', n=n, spectrum='separated', k=0, vreal=vreal, seed=int(rng.integers(1 << 31)))
         if algo == 'lanczos':
             for n in (24, 32, 40):
                 for vreal in (False, True):
